@@ -605,6 +605,69 @@ fn c17(r: &mut Rep) {
     }
 }
 
+
+// ---------------------------------------------------------------- c01: every value goes to the designated field, nothing else is written
+// (member text, Into: (destination path, expression on `self`) or None, From: (own field, expression on `value`) or None, is bare parent)
+fn member_specs(i: usize) -> Vec<(String, Option<(String, String)>, Option<(String, String)>, bool)> {
+    let x = format!("x{}", i);
+    let y = format!("y{}", i);
+    let p = format!("p{}", i);
+    vec![
+        (format!("{}: i32", x), Some((x.clone(), format!("self.{}", x))), Some((x.clone(), format!("value.{}", x))), false),
+        (format!("#[map({})] {}: i32", y, x), Some((y.clone(), format!("self.{}", x))), Some((x.clone(), format!("value.{}", y))), false),
+        (format!("#[map(~.clone())] {}: i32", x), Some((x.clone(), format!("self.{}.clone()", x))), Some((x.clone(), format!("value.{}.clone()", x))), false),
+        (format!("#[map({}, ~.clone())] {}: i32", y, x), Some((y.clone(), format!("self.{}.clone()", x))), Some((x.clone(), format!("value.{}.clone()", y))), false),
+        (format!("#[from(~ + 1)] #[into(~ - 1)] {}: i32", x), Some((x.clone(), format!("self.{}-1", x))), Some((x.clone(), format!("value.{}+1", x))), false),
+        (format!("#[ghost({{ 7 }})] {}: i32", x), None, Some((x.clone(), "7".into())), false),
+        (format!("#[child(c)] {}: i32", x), Some((format!("c.{}", x), format!("self.{}", x))), Some((x.clone(), format!("value.c.{}", x))), false),
+        (format!("#[child(c.d)] #[map({})] {}: i32", y, x), Some((format!("c.d.{}", y), format!("self.{}", x))), Some((x.clone(), format!("value.c.d.{}", y))), false),
+        (format!("#[from(@.q + ~)] #[into({}, @.{}.len() + ~)] {}: i32", y, x, x), Some((y.clone(), format!("self.{}.len()+self.{}", x, x))), Some((x.clone(), format!("value.q+value.{}", x))), false),
+        (format!("#[parent] {}: P", p), None, Some((p.clone(), "PARENT".into())), true),
+    ]
+}
+
+fn c01(r: &mut Rep) {
+    let (s0, s1, s2) = (member_specs(0), member_specs(1), member_specs(2));
+    let mut combos: Vec<Vec<&(String, Option<(String, String)>, Option<(String, String)>, bool)>> = vec![];
+    for a in &s0 { combos.push(vec![a]); for b in &s1 { combos.push(vec![a, b]); for c in &s2 { combos.push(vec![a, b, c]); } } }
+    for ms in combos {
+        for gh in [false, true] {
+            let body = ms.iter().map(|m| m.0.clone()).collect::<Vec<_>>().join(", ");
+            let cp = if body.contains("#[child(") { "#[child_parents(c: C, c.d: D)]\n" } else { "" };
+            let src = format!("{}{}#[map(B)]\n#[into_existing(B)]\nstruct A {{ {} }}", cp, if gh { "#[ghosts(g: { 1 })]\n" } else { "" }, body);
+            r.cases += 1;
+            let out = match expand(&src) { Ok(o) => o, Err(e) => { r.fail(&src, format!("does not expand: {}", e)); continue; } };
+            let is = match impls(&out) { Ok(i) => i, Err(e) => { r.fail(&src, e); continue; } };
+            if is.len() != 6 { r.fail(&src, format!("{} impls instead of 6", is.len())); continue; }
+            let parents: Vec<String> = ms.iter().filter(|m| m.3).map(|m| m.2.as_ref().unwrap().0.clone()).collect();
+            for i in &is {
+                let by_ref = i.head.contains("for & A") || i.head.contains("< & B >");
+                if i.method == "from" {
+                    let mut exp: BTreeMap<String, String> = BTreeMap::new();
+                    for m in &ms { if let Some((f, e)) = &m.2 { exp.insert(f.clone(), if m.3 { if by_ref { "value.into()".into() } else { "(&value).into()".into() } } else { e.clone() }); } }
+                    match assignments(i, "-") {
+                        Ok((got, rest)) if got == exp && rest.is_empty() => {}
+                        o => { r.fail(&src, format!("[{}] {:?}, every own field must receive its designated counterpart value: {:?}", i.head, o, exp)); break; }
+                    }
+                } else {
+                    let dst = if i.method == "into" { "obj" } else { "other" };
+                    let mut exp: BTreeMap<String, String> = BTreeMap::new();
+                    for m in &ms { if let Some((d, e)) = &m.1 { exp.insert(d.clone(), e.clone()); } }
+                    if gh { exp.insert("g".into(), "1".into()); }
+                    let mut exp_rest: Vec<String> = vec![];
+                    if i.method == "into" && !parents.is_empty() { exp_rest.push("letmutobj:B=Default::default();".into()); }
+                    for p in &parents { exp_rest.push(format!("{}.into_existing({});", if by_ref { format!("(&(self.{}))", p) } else { format!("self.{}", p) }, if i.method == "into" { "&mutobj" } else { "other" })); }
+                    if i.method == "into" && !parents.is_empty() { exp_rest.push("obj".into()); }
+                    match assignments(i, dst) {
+                        Ok((got, rest)) if got == exp && rest == exp_rest => {}
+                        o => { r.fail(&src, format!("[{}] {:?}, the designated fields are {:?} and the other statements {:?}", i.head, o, exp, exp_rest)); break; }
+                    }
+                }
+            }
+        }
+    }
+}
+
 fn main() {
     panic::set_hook(Box::new(|_| {}));
     let suite = std::env::args().nth(1).unwrap_or_default();
@@ -614,6 +677,7 @@ fn main() {
         "c03" => c03(&mut r),
         "c11" => c11(&mut r),
         "c07" => c07(&mut r),
+        "c01" => c01(&mut r),
         "c17" => c17(&mut r),
         _ => { eprintln!("usage: structural c08|c03|c11"); std::process::exit(2); }
     }
